@@ -27,17 +27,22 @@ AUDIT_FILES = ["PyroModel/NameServer.lean", "PyroModel/Sql.lean", "PyroModel/Gen
 THEOREMS = ["Pyro.C14.C14_mem_refines", "Pyro.C14.C14_sql_refines", "Pyro.C14.C14_backends_equal",
             "Pyro.C14.C14_counts", "Pyro.C14.C14_counts_mem", "Pyro.C14.C14_counts_sql", "Pyro.C14.C14_ns_protected",
             "Pyro.C14.C14_atomic", "Pyro.C14.C14_atomic_inv", "Pyro.C14.C14_reopen",
+            "Pyro.C14.C14_fresh_empty", "Pyro.C14.C14_overlap_serial",
             "Pyro.C14.C14_literal_names", "Pyro.C14.C14_like_not_literal", "Pyro.C14.C14_meta_all_raw_differs",
             "Pyro.C14.C14_gen_sql", "Pyro.C14.C14_gen_cover", "Pyro.C14.C14_gen_texts", "Pyro.C14.C14_gen_schema",
             "Pyro.C14.C14_gen_nsname"]
-SUITES = ["mem", "sql", "sql-faults", "spec", "like"]
+SUITES = ["mem", "default", "sql", "sql-faults", "spec", "like"]
 RULE = ("histories of 4..30 operations (register safe/unsafe with tag lists incl. duplicates, set_metadata, lookup, "
         "remove by name/prefix/regex and combinations, list, yplookup all/any, count, reopen) over a per-history universe of "
         "confusable names (case pairs, '_' and '%' variants, regex metacharacters, non-ASCII, the empty string, the name "
         "server's own name), generated from VERIF_SEED; for sampled operations every statement index (and every explicit "
         "commit) is tried as a failure point; a history is non-trivial when on the real sqlite back-end some prefix / regex / "
         "metadata query or removal selected a non-empty proper subset of a map holding >= 2 entries; distinct = distinct "
-        "operation-token sequence")
+        "operation-token sequence; every history is also run on a default-constructed NameServer() and a second NameServer() "
+        "created afterwards must be empty and independent; overlap suite: for a table of call pairs (all kinds x mutating "
+        "kinds on shared names) plus generated pairs, client B's call arrives at every storage access of client A's call "
+        "(B runs until it returns or waits for the name server's lock), both back-ends; the outcome must be one of the two "
+        "sequential orders on a plain map")
 ASSUMPTIONS = [
     "sqlite executes each modelled statement with the relational meaning written in PyroModel/Sql.lean (validated by the sql suite)",
     "an exception inside `with sqlite3.connect(f) as db:` rolls the whole transaction back (sqlite's guarantee; exercised by fault injection)",
@@ -46,7 +51,8 @@ ASSUMPTIONS = [
     "names / tags are well-formed unicode without NUL and lone surrogates (sqlite cannot store those)",
     "crash points are statement-level failures; torn pages / power loss are sqlite's own guarantee",
 ]
-TRUSTED = ["the sqlite3 stand-in module (counts / fails execute and commit calls, otherwise delegates)",
+TRUSTED = ["HookLock / hooked storage subclasses of the overlap suite (report accesses, otherwise delegate)",
+           "the sqlite3 stand-in module (counts / fails execute and commit calls, otherwise delegates)",
            "Python `dict` reference map `Ref` in harness/props/c14.py (the property statement written out)"]
 
 NS_NAME = "Pyro.NameServer"
@@ -558,6 +564,9 @@ class Ref:
         return show_listing(dict(self.m)) + " n%d" % len(self.m)
 
 
+EMPTY_SNAPSHOT = "d~ n0"
+
+
 def real_snapshot(ns):
     return show_listing(ns.list(return_metadata=True)) + " n%d" % ns.count()
 
@@ -776,6 +785,7 @@ class Real:
         base = "/dev/shm" if os.path.isdir("/dev/shm") and os.access("/dev/shm", os.W_OK) else None
         self.dir = tempfile.mkdtemp(prefix="verif-c14-", dir=base)
         self.nfile = 0
+        self.dflt_dead = False     # set once NameServer() instances were seen to share state (reported once, not per history)
         self.pools = _uri_pools(core)
         return self
 
@@ -823,9 +833,21 @@ def run_history(R, ops, fault_plan, rng_after, do_mem=True):
     mem = ns_mod.NameServer(ns_mod.MemoryStorage()) if do_mem else None
     ref = Ref(core)
     sql_tokens, sql_out, mem_tokens, mem_out = [], [], [], []
+    dflt_tokens, dflt_out = [], []
     failures = []
     stats = {"nontrivial": False, "faults": 0}
     mem_alive, sql_alive = do_mem, True
+    # a name server created the way applications do it, `NameServer()`: every instance is its own, initially empty, map
+    dflt = None
+    dflt_alive = do_mem and not R.dflt_dead
+    if dflt_alive:
+        dflt = ns_mod.NameServer()
+        s0 = real_snapshot(dflt)
+        if s0 != EMPTY_SNAPSHOT:
+            failures.append(("default-ns-not-fresh", "a new NameServer() already holds %s (left there by an earlier NameServer() instance)"
+                             % pretty(s0.split(" ")[0])[:300], -1, "dflt"))
+            dflt_alive = False
+            R.dflt_dead = True
     try:
         for idx, op in enumerate(ops):
             if op["k"] == "reopen":
@@ -843,6 +865,13 @@ def run_history(R, ops, fault_plan, rng_after, do_mem=True):
                 continue
             t = tok(op)
             expect = ref.apply(op)
+            if dflt_alive:
+                got = call_real(dflt, op, errors)
+                dflt_tokens.append(t)
+                dflt_out.append(got + "#0")
+                if got != expect:
+                    failures.append((classify(op, "dflt", "result", got, expect), "NameServer(): %s -> %s, a plain map answers %s" % (describe(op), pretty(got)[:300], pretty(expect)[:300]), idx, "dflt"))
+                    dflt_alive = False
             if mem_alive:
                 got = call_real(mem, op, errors)
                 mem_tokens.append(t)
@@ -909,6 +938,23 @@ def run_history(R, ops, fault_plan, rng_after, do_mem=True):
             s = real_snapshot(mem)
             if s != ref.snapshot():
                 failures.append(("mem-final-state", "final map in memory %s, reference %s" % (s[:300], ref.snapshot()[:300]), len(ops), "mem"))
+        if dflt_alive:
+            s = real_snapshot(dflt)
+            if s != ref.snapshot():
+                failures.append(("dflt-final-state", "final map of NameServer() %s, reference %s" % (s[:300], ref.snapshot()[:300]), len(ops), "dflt"))
+            else:
+                # a second instance created now is empty, and creating / using it does not touch the first
+                other = ns_mod.NameServer()
+                s2 = real_snapshot(other)
+                if s2 != EMPTY_SNAPSHOT:
+                    failures.append(("default-ns-not-fresh", "after this history on one NameServer(), a second new NameServer() holds %s; every name server is its own, initially empty, map"
+                                     % pretty(s2.split(" ")[0])[:300], len(ops), "dflt"))
+                    R.dflt_dead = True
+                else:
+                    call_real(other, {"k": "reg", "name": "fresh.probe", "uri": R.pools[0][0], "safe": 0, "meta": None}, errors)
+                    if real_snapshot(dflt) != s:
+                        failures.append(("default-ns-not-fresh", "registering a name in a second NameServer() changed the first one", len(ops), "dflt"))
+                        R.dflt_dead = True
     finally:
         F.reset()
         for suffix in ("", "-journal", "-wal", "-shm"):
@@ -917,6 +963,7 @@ def run_history(R, ops, fault_plan, rng_after, do_mem=True):
             except OSError:
                 pass
     return {"sql_tokens": sql_tokens, "sql_out": sql_out, "mem_tokens": mem_tokens, "mem_out": mem_out,
+            "dflt_tokens": dflt_tokens, "dflt_out": dflt_out,
             "failures": failures, "stats": stats, "mem_alive": mem_alive, "sql_alive": sql_alive}
 
 
@@ -963,7 +1010,8 @@ def _run(ctx, name, n, do_model, directed=False):
     with Real() as R:
         hist = []
         for c in _corpus():
-            hist.append((c["ops"], set(c.get("faults", [])), "corpus:" + c["_file"]))
+            if "ops" in c:
+                hist.append((c["ops"], set(c.get("faults", [])), "corpus:" + c["_file"]))
         for i in range(n):
             ops = gen_history(rng, R.pools, maxops=30 if not directed else 14)
             r = rng.random()
@@ -976,6 +1024,7 @@ def _run(ctx, name, n, do_model, directed=False):
             hist.append((ops, plan, "gen"))
         lines, meta = [], []
         shrunk = {}
+        prev_ops = []
         for ops, plan, origin in hist:
             res = run_history(R, ops, plan, rng_after)
             ctx.evaluations += 1
@@ -989,14 +1038,20 @@ def _run(ctx, name, n, do_model, directed=False):
             if len(ctx.samples) < 4 and res["stats"]["nontrivial"] and len(ops) <= 12:
                 ctx.sample({"ops": [describe(o) for o in ops], "sqlite": res["sql_out"]})
             for sig, desc, idx, backend in res["failures"]:
-                case = {"ops": ops[:idx + 1] if idx < len(ops) else ops, "faults": sorted(j for j in plan if j <= idx), "origin": origin, "backend": backend}
-                if shrunk.get(sig, 0) < 2 and len(case["ops"]) > 3 and not origin.startswith("corpus"):
+                case = {"ops": ops[:idx + 1] if 0 <= idx < len(ops) else ops, "faults": sorted(j for j in plan if j <= idx), "origin": origin, "backend": backend}
+                if sig == "default-ns-not-fresh":
+                    case = {"ops": [o for o in (prev_ops if idx < 0 else ops) if o["k"] != "reopen"], "faults": [], "origin": origin, "backend": "dflt"}
+                elif shrunk.get(sig, 0) < 2 and len(case["ops"]) > 3 and not origin.startswith("corpus"):
                     shrunk[sig] = shrunk.get(sig, 0) + 1
                     small = shrink(R, case["ops"], sig)
                     case = {"ops": small, "faults": list(range(len(small))) if sig.startswith("sql-fault") else [], "origin": origin + "+shrunk", "backend": backend}
                 ctx.fail(sig, desc, case)
+            prev_ops = ops
             if do_model:
                 bad, tab = env_tables(ops, R.core)
+                if res["dflt_tokens"]:
+                    lines.append("hist mem %s %s %s" % (bad, tab, " ".join(res["dflt_tokens"])))
+                    meta.append(("default", ops, res["dflt_out"], True))
                 if res["mem_tokens"]:
                     lines.append("hist mem %s %s %s" % (bad, tab, " ".join(res["mem_tokens"])))
                     meta.append(("mem", ops, res["mem_out"], res["mem_alive"]))
@@ -1025,6 +1080,225 @@ def _run(ctx, name, n, do_model, directed=False):
                         ctx.mismatch(suite, {"line": line if len(line) < 1500 else line[:1500] + "...", "op": toks[j], "index": j,
                                              "ops": ops}, r[:400], m[:400])
                         break
+
+
+# ----------------------------------------------------------------------------------------------------
+# two clients whose calls overlap: the second call arrives while the first is at one of its storage accesses
+# ----------------------------------------------------------------------------------------------------
+import threading
+
+HOOKED = ["__getitem__", "__setitem__", "__delitem__", "__contains__", "__len__", "__iter__", "optimized_prefix_list",
+          "optimized_regex_list", "optimized_metadata_search", "everything", "remove_items"]
+
+
+class HookLock:
+    """stands in for NameServer.lock (re-entrant); tells the rig when a thread is about to wait for it"""
+
+    def __init__(self):
+        self._l = threading.RLock()
+        self.on_block = None
+
+    def acquire(self, blocking=True, timeout=-1):
+        if self._l.acquire(False):
+            return True
+        if not blocking:
+            return False
+        if self.on_block is not None:
+            self.on_block()
+        return self._l.acquire()
+
+    def release(self):
+        self._l.release()
+
+    def __enter__(self):
+        self.acquire()
+        return self
+
+    def __exit__(self, *exc):
+        self._l.release()
+
+
+def hooked_storage(base):
+    """subclass of a real storage class: every interface method first reports to `self.rig_hook` (if set)"""
+    ns = {"rig_hook": None}
+    for m in HOOKED:
+        def make(m):
+            orig = getattr(base, m)
+
+            def method(self, *a, **kw):
+                h = self.__dict__.get("rig_hook") if not isinstance(self, dict) else getattr(self, "rig_hook", None)
+                if h is not None:
+                    h(m)
+                return orig(self, *a, **kw)
+            method.__name__ = m
+            return method
+        ns[m] = make(m)
+    return type("Hooked" + base.__name__, (base,), ns)
+
+
+def run_overlap(R, backend, init, a, b, k):
+    """
+    Fresh name server holding `init`; client A calls `a`; when A (its thread) is about to make its k-th storage access,
+    client B's call `b` arrives and runs until it returns or has to wait for the name server's lock; then A goes on.
+    Returns (fired, result of a, result of b, final snapshot).  No sleeps, no timeouts: fully determined by (a, b, k).
+    """
+    ns_mod, errors = R.nameserver, R.errors
+    key = "hooked_" + backend
+    if key not in R.__dict__:
+        R.__dict__[key] = hooked_storage(ns_mod.MemoryStorage if backend == "mem" else ns_mod.SqlStorage)
+    cls = R.__dict__[key]
+    path = None
+    if backend == "mem":
+        st = cls()
+    else:
+        path = R.new_file()
+        st = cls(path)
+    R.faults.reset()
+    try:
+        ns = ns_mod.NameServer(st)
+        for o in init:
+            call_real(ns, o, errors)
+        lock = HookLock()
+        ns.lock = lock
+        me = threading.get_ident()
+        state = {"n": 0, "fired": False, "b": None}
+        parked = threading.Event()      # B returned, or B is waiting for the lock
+        result = {}
+
+        def b_body():
+            try:
+                result["b"] = call_real(ns, b, errors)
+            finally:
+                parked.set()
+
+        def on_block():
+            if threading.get_ident() != me:
+                parked.set()
+
+        def hook(method):
+            if threading.get_ident() != me or state["fired"]:
+                return
+            if state["n"] == k:
+                state["fired"] = True
+                t = threading.Thread(target=b_body, name="c14-client-b", daemon=True)
+                state["b"] = t
+                t.start()
+                parked.wait()
+            state["n"] += 1
+
+        lock.on_block = on_block
+        st.rig_hook = hook
+        ra = call_real(ns, a, errors)
+        st.rig_hook = None
+        if state["b"] is not None:
+            state["b"].join()
+        lock.on_block = None
+        ns.lock = threading.RLock()
+        return state["fired"], ra, result.get("b"), real_snapshot(ns)
+    finally:
+        R.faults.reset()
+        if path:
+            for suffix in ("", "-journal", "-wal", "-shm"):
+                try:
+                    os.unlink(path + suffix)
+                except OSError:
+                    pass
+
+
+def serial_outcomes(core, init, a, b):
+    """what a plain map allows for two overlapping calls: one of the two orders (C14_overlap_serial)"""
+    outs = []
+    for first, second in ((a, b), (b, a)):
+        ref = Ref(core)
+        for o in init:
+            ref.apply(o)
+        r1 = ref.apply(first)
+        r2 = ref.apply(second)
+        ra, rb = (r1, r2) if first is a else (r2, r1)
+        outs.append((ra, rb, ref.snapshot()))
+    return outs
+
+
+def judge_overlap(R, backend, init, a, b, k):
+    """returns (fired, failure or None)"""
+    fired, ra, rb, snap = run_overlap(R, backend, init, a, b, k)
+    if not fired:
+        return False, None
+    allowed = serial_outcomes(R.core, init, a, b)
+    if (ra, rb, snap) in allowed:
+        return True, None
+    sig = "overlap-not-serial:%s+%s" % (a["k"], b["k"])
+    desc = ("%s back-end: %s was at its storage access no. %d when %s arrived; results %s / %s, final map %s; "
+            "in either order a plain map gives %s / %s -> %s   or   %s / %s -> %s"
+            % ("memory" if backend == "mem" else "sqlite", describe(a), k, describe(b), pretty(ra), pretty(rb), pretty(snap.split(" ")[0])[:200],
+               pretty(allowed[0][0]), pretty(allowed[0][1]), pretty(allowed[0][2].split(" ")[0])[:200],
+               pretty(allowed[1][0]), pretty(allowed[1][1]), pretty(allowed[1][2].split(" ")[0])[:200]))
+    return True, (sig, desc, {"overlap": True, "backend": backend, "init": init, "a": a, "b": b, "k": k})
+
+
+def _overlap_cases(rng, pools, n):
+    good = pools[0]
+    u1, u2 = good[0], good[-1]
+    init = [{"k": "reg", "name": "obj", "uri": u1, "safe": 0, "meta": {"L": ["t0"]}},
+            {"k": "reg", "name": "obj.two", "uri": u1, "safe": 0, "meta": {"L": ["t0", "t1"]}},
+            {"k": "reg", "name": NS_NAME, "uri": u1, "safe": 0, "meta": None}]
+    table = [
+        {"k": "reg", "name": "obj", "uri": u2, "safe": 0, "meta": {"L": ["n"]}},
+        {"k": "reg", "name": "obj", "uri": u2, "safe": 1, "meta": None},
+        {"k": "reg", "name": "new", "uri": u2, "safe": 1, "meta": {"L": ["t0"]}},
+        {"k": "setm", "name": "obj", "meta": {"L": ["t1"]}},
+        {"k": "setm", "name": "new", "meta": None},
+        {"k": "rm", "name": "obj", "prefix": None, "regex": None},
+        {"k": "rm", "name": None, "prefix": "obj", "regex": None},
+        {"k": "rm", "name": None, "prefix": None, "regex": "o.*"},
+        {"k": "look", "name": "obj", "wm": 1},
+        {"k": "list", "prefix": "ob", "regex": None, "wm": 1},
+        {"k": "list", "prefix": None, "regex": "obj.*", "wm": 0},
+        {"k": "yp", "all": {"L": ["t0"]}, "any": None, "wm": 1},
+        {"k": "count"},
+    ]
+    mutating = [o for o in table if o["k"] in MUTATING]
+    cases = [(init, a, b) for a in table for b in mutating]
+    for _ in range(n):
+        ops = [o for o in gen_history(rng, pools, maxops=8) if o["k"] != "reopen"]
+        if len(ops) < 3:
+            continue
+        a, b = ops[-2], ops[-1]
+        if b["k"] not in MUTATING and a["k"] in MUTATING:
+            a, b = b, a
+        cases.append((ops[:-2], a, b))
+    return cases
+
+
+def _overlap_suite(ctx, name, n):
+    rng = ctx.sub_rng(name)
+    with Real() as R:
+        cases = []
+        for c in _corpus():
+            if c.get("overlap"):
+                cases.append((c["init"], c["a"], c["b"], c.get("backend"), c.get("k")))
+        cases += [(i, a, b, None, None) for i, a, b in _overlap_cases(rng, R.pools, n)]
+        reported = set()
+        for init, a, b, only_backend, only_k in cases:
+            for backend in ("mem", "sql"):
+                if only_backend and backend != only_backend:
+                    continue
+                k = 0
+                while k < 60:
+                    if only_k is not None:
+                        k = only_k
+                    fired, failure = judge_overlap(R, backend, init, a, b, k)
+                    if not fired:
+                        break
+                    ctx.evaluations += 1
+                    ctx.count("overlap:%s+%s" % (a["k"], b["k"]))
+                    ctx.nontriv(("overlap", backend, [tok(o) for o in init], tok(a), tok(b), k))
+                    if failure and (failure[0], backend) not in reported:
+                        reported.add((failure[0], backend))
+                        ctx.fail(*failure)
+                    if only_k is not None:
+                        break
+                    k += 1
 
 
 def _like_suite(ctx, n):
@@ -1061,19 +1335,36 @@ def correspondence(ctx):
 
 
 def oracle(ctx):
-    # step D ran inside _run on the same histories; in search mode it runs again on fresh, shorter, more confusable ones
+    # step D for sequential histories ran inside _run on the same histories; in search mode it runs again on fresh,
+    # shorter, more confusable ones.  Overlapping calls of two clients are judged here (real code only).
     if ctx.search_mode:
         _run(ctx, "search", ctx.n(700, 7000), False, directed=True)
+        _overlap_suite(ctx, "overlap-search", ctx.n(150, 1500))
+    else:
+        _overlap_suite(ctx, "overlap", ctx.n(60, 1500))
 
 
 def replay(ctx, case):
     f = case.get("failing_input") or {}
-    c = f.get("case") or case.get("case") or (case if "ops" in case else None)
+    c = f.get("case") or case.get("case") or (case if ("ops" in case or "overlap" in case) else None)
     if not c:
         print("replay file names no failing input:", case.get("no_longer_checks"))
         return 1
     import random
     reproduced = 0
+    if c.get("overlap"):
+        with Real() as R:
+            for o in c["init"]:
+                print("   init:", describe(o))
+            fired, failure = judge_overlap(R, c["backend"], c["init"], c["a"], c["b"], c["k"])
+            if failure:
+                print("FAIL [%s] %s" % (failure[0], failure[1]))
+                reproduced = 1
+            else:
+                print("client B's call %s at storage access %d of %s: %s" % (describe(c["b"]), c["k"], describe(c["a"]),
+                                                                             "serial outcome" if fired else "access index not reached"))
+        print("VIOLATION reproduced" if reproduced else "not reproduced")
+        return 1 if reproduced else 0
     with Real() as R:
         res = run_history(R, c["ops"], set(c.get("faults", [])), random.Random(0))
         for o, in zip(c["ops"]):
